@@ -393,11 +393,12 @@ def c15():
                 q = "quick" if mr in owned_q.get((c, r), []) else "thorough"
                 add("C15", f"c15_translate_owned_{c}x{r}_mr{mr}", f"c15::translate(0, {c}, {r}, 0, 0, {c}, {r}, {mr})", max(c, r) + 3, q,
                     stubs=[ROTATE_STUB], also=["C01"] if q == "quick" and (c, r) == (3, 3) and mr == 1 else [])
-    wins = {"interior2x2": (1, 1, 3, 3), "right2x3": (2, 1, 4, 4), "top4x1": (0, 0, 4, 1), "col1x4": (1, 0, 2, 4), "bottomleft3x2": (0, 2, 3, 4)}
+    wins = {"interior2x2": (1, 1, 3, 3), "right2x3": (2, 1, 4, 4), "top4x1": (0, 0, 4, 1), "col1x4": (1, 0, 2, 4), "bottomleft3x2": (0, 2, 3, 4), "mid2x4": (1, 0, 3, 4)}
     for nm, (sc, sr, ec, er) in wins.items():
         h = er - sr
         for mr in range(0, h + 1):
-            q = "quick" if (nm == "interior2x2" and mr == 1) or (nm == "right2x3" and mr in (1, 2)) or (nm == "top4x1" and mr == 0) else "thorough"
+            # mid2x4 with mr=2: gcd(4, 2) = 2 row cycles, so a base row other than 0 gets the final rotate
+            q = "quick" if (nm == "interior2x2" and mr == 1) or (nm == "right2x3" and mr in (1, 2)) or (nm == "top4x1" and mr == 0) or (nm == "mid2x4" and mr == 2) else "thorough"
             add("C15", f"c15_translate_view_{nm}_mr{mr}", f"c15::translate(1, 4, 4, {sc}, {sr}, {ec}, {er}, {mr})", 7, q, stubs=[ROTATE_STUB], also=["C04"] if q == "quick" else [])
     add("C15", "c15_translate_mini_interior2x2_mr1", "c15::translate(2, 4, 4, 1, 1, 3, 3, 1)", 7, "thorough", stubs=[ROTATE_STUB])
     for which in (0, 1, 2):
@@ -406,8 +407,8 @@ def c15():
         add("C15", f"c15_translate_rejected_view_4x4_w{which}", f"c15::translate_rejected(1, 4, 4, {which})", 7, "quick" if which < 2 else "thorough", kind="panic", stubs=[ROTATE_STUB])
     for rows in (True, False):
         nm = "flip_rows" if rows else "flip_cols"
-        for (c, r) in [(3, 3), (2, 3), (3, 2), (1, 1), (4, 4), (0, 0)]:
-            add("C15", f"c15_{nm}_owned_{c}x{r}", f"c15::flip({b(rows)}, 0, {c}, {r}, 0, {c})", 7, "quick" if (c, r) in [(3, 3), (2, 3)] else "thorough")
+        for (c, r) in [(3, 3), (2, 3), (3, 2), (1, 1), (4, 4), (0, 0), (1, 3), (3, 1)]:
+            add("C15", f"c15_{nm}_owned_{c}x{r}", f"c15::flip({b(rows)}, 0, {c}, {r}, 0, {c})", 7, "quick" if (c, r) in [(3, 3), (2, 3), (1, 3), (3, 1)] else "thorough")
         for (sc, ec) in [(1, 3), (0, 4), (3, 4), (2, 2)]:
             add("C15", f"c15_{nm}_view_c{sc}_{ec}", f"c15::flip({b(rows)}, 1, 4, 4, {sc}, {ec})", 7, "quick" if (sc, ec) in [(1, 3), (0, 4)] else "thorough", also=["C04"] if (sc, ec) == (1, 3) else [])
 
@@ -444,6 +445,10 @@ def sorts(prop, entries, by_row):
                 quick = (wn == ("interior3x2" if by_row else "interior2x3")) and line == 1 and e in (0, 1, 6, 7, 8)
                 add(prop, f"{prop.lower()}_{nm}_view_{wn}_l{line}", f"c16::sort({e}, 1, 4, 4, {sc}, {sr}, {ec}, {er}, {line})", 7, "quick" if quick else "thorough",
                     stubs=stubs, also=["C04"] if quick else [])
+        # degenerate shapes (a single line to sort, or nothing at all): the index check must still come first
+        for (c, r) in [(1, 3), (3, 1), (0, 0), (1, 1)]:
+            q = "quick" if e in (0, 1, 6, 7) and (c, r) in ([(1, 3), (0, 0)] if by_row else [(3, 1), (0, 0)]) else "thorough"
+            add(prop, f"{prop.lower()}_{nm}_rejected_owned_{c}x{r}_w0", f"c16::sort_rejected({e}, 0, {c}, {r}, 0)", 7, q, kind="panic", stubs=stubs)
         for which in (0, 1):
             add(prop, f"{prop.lower()}_{nm}_rejected_owned_2x3_w{which}", f"c16::sort_rejected({e}, 0, 2, 3, {which})", 7, "quick" if which == 0 or e in (0, 6) else "thorough", kind="panic", stubs=stubs)
             add(prop, f"{prop.lower()}_{nm}_rejected_view_4x4_w{which}", f"c16::sort_rejected({e}, 1, 4, 4, {which})", 7, "quick" if which == 0 and e in (0, 1, 6, 8) else "thorough", kind="panic", stubs=stubs)
@@ -469,7 +474,7 @@ def c14():
             add("C14", f"c14_{nm}_view_c{sc}_{ec}", f"c14::bulk({op}, 1, 4, 4, {sc}, {ec}, false)", 7, q, also=["C04"] if (sc, ec) == (1, 3) else [])
         add("C14", f"c14_{nm}_mismatch_owned_2x3", f"c14::bulk({op}, 0, 2, 3, 0, 2, true)", 7, "quick" if op in (0, 1, 2, 4) else "thorough", kind="panic")
         add("C14", f"c14_{nm}_mismatch_owned_0x0", f"c14::bulk({op}, 0, 0, 0, 0, 0, true)", 7, "thorough", kind="panic")
-        add("C14", f"c14_{nm}_mismatch_view_c1_3", f"c14::bulk({op}, 1, 4, 4, 1, 3, true)", 7, "quick" if op in (0, 3, 5) else "thorough", kind="panic")
+        add("C14", f"c14_{nm}_mismatch_view_c1_3", f"c14::bulk({op}, 1, 4, 4, 1, 3, true)", 7, "quick" if op in (0, 2, 3, 5) else "thorough", kind="panic")
     for order, on in ((0, "down"), (1, "level"), (2, "up")):
         for height in (0, 1, 2, 3):
             q = "quick" if height in (1, 2) else "thorough"
@@ -581,6 +586,9 @@ def engb():
         add("C20", f"b_ctor_{w}", f"engb::b_ctor({w})", 1, "native", kind="panic")
     for op in range(4):
         add("C11", f"b_state_{op}", f"engb::b_state({op})", 1, "native", kind="pass")
+    for ty in range(4):
+        for meth in range(5):
+            add("C08" if ty < 2 else "C09", f"b_cursor_{ty}_{meth}", f"engb::b_cursor({ty}, {meth})", 1, "native", kind="pass")
 
 
 engb()
